@@ -23,13 +23,13 @@ LEVEL_TEXT = ("Coq theorems over (a) a world model {python stream, numpy stream,
               "footprints avoid the OS is reproducible after seed(s) whatever the prior world, a call with an explicit-generator "
               "footprint leaves both global streams untouched and depends on that generator only; (b) the reference graph of the "
               "whole package regenerated from the source on every run: every anchored stochastic component reaches only its own "
-              "generator, OS entropy enters only at the named pymoo entry points, every function that accepts rng is explicit-only "
+              "generator, no function of the package reaches OS entropy, every function that accepts rng is explicit-only "
               "up to the named root causes (known findings); (c) a bit-exact MT19937 model of prng.seed/spawn. The model is tied "
               "to the code by evaluating it inside Coq against the implementation (seed/spawn states bit for bit; observed stream "
               "movements and reproducibility of every stochastic API against the static footprints)")
 LEVEL_NOTE = ("trusted: Coq kernel + vm_compute; the ast translator (over-approximating reference graph: attribute access on objects of "
               "unknown class is linked to every member of that name; methods invoked implicitly by operators are checked separately "
-              "to be source-free); hand-entered third-party facts (pymoo 0.6.2 minimize() seeds default_rng(None); deap "
+              "to be source-free); hand-entered third-party facts (pymoo 0.6.2 minimize() seeds default_rng(seed), None without a seed argument; deap "
               "selTournamentDCD uses python's random); numpy/CPython generators themselves; theorems are about the Gallina "
               "model, the tie to the code is the regenerated table plus differential runs on generated inputs")
 TECHNIQUE = "Coq proof over a regenerated footprint table + bit-exact MT19937 seed model; in-Coq vm_compute correspondence with dynamic runs"
@@ -40,7 +40,7 @@ RULE = ("case kinds from one PRNG: seedmodel (seed in boundary set {0,1,2^32-1,2
         "configuration classes, spawn, apply_jitter, EMBV, every optimiser; non-trivial = the component consumed randomness "
         "(some stream moved); distinct by SHA-256 of the case")
 TRUSTED = ["harness/translate/c08_entropy.py (ast translator, fail closed on unclassified references to entropy-bearing modules)",
-           "pymoo 0.6.2 Algorithm.setup: random_state = default_rng(seed), seed None unless passed to minimize() (entered by hand)",
+           "pymoo 0.6.2 Algorithm.setup: random_state = default_rng(seed), seed None unless passed to minimize(): OS entropy iff a minimize() call site passes no seed (entered by hand, checked syntactically at every call site, cross-checked dynamically)",
            "deap.tools.selTournamentDCD draws from python's global random (entered by hand)",
            "CPython random.seed(int)/getrandbits/_randbelow and numpy legacy seeding are modelled (MT19937), not verified; "
            "distributions of numpy generators are opaque (only state movement and output equality are observed)"]
@@ -48,8 +48,10 @@ ASSUMPTIONS = ["seeds are Python ints (seed(None) deliberately takes OS entropy)
                "explicit generators are numpy Generator/RandomState objects not shared with the global stream",
                "objects passed to a component (problems, genomic models) do not themselves draw random numbers"]
 
-GA_COMPS = ("SubsetGA", "BinaryGA", "IntegerGA", "RealGA", "NSGA2SubsetGA", "NSGA2BinaryGA", "NSGA2IntegerGA", "NSGA2RealGA",
-            "NSGA3SubsetGA", "MemeticA", "MemeticB", "MemeticSteepest", "MemeticStochastic")
+# pymoo-based optimisers.  Since /repo commit 0de6ee80 every minimize() seeds pymoo's generator from self.rng.
+GA_PYMOO_OPS = ("BinaryGA", "IntegerGA", "RealGA", "NSGA2BinaryGA", "NSGA2IntegerGA", "NSGA2RealGA")     # pymoo's own operators only: clean
+GA_ADDON = ("SubsetGA", "NSGA2SubsetGA", "NSGA3SubsetGA", "MemeticA", "MemeticB", "MemeticSteepest", "MemeticStochastic")  # + pymoo_addon operators (numpy.random global)
+GA_COMPS = GA_PYMOO_OPS + GA_ADDON
 SELPROT_COMPS = ("SelProtSubset", "SelProtReal", "SelProtBinary", "SelProtInteger")
 HELPER_COMPS = ("RandomSelProt",)
 DEAP_COMPS = ("UnconSetGA", "UnconNSGA2SetGA")
@@ -447,9 +449,9 @@ SEED_EDGE = [0, 1, 2, 2 ** 31, 2 ** 32 - 1, 2 ** 32, 2 ** 32 + 1, 2 ** 63, 2 ** 
 CLEAN_RNG = ["TwoWayCross", "TwoWayDHCross", "ThreeWayCross", "ThreeWayDHCross", "FourWayCross", "FourWayDHCross", "SelfCross",
              "G_E_Phenotyping", "sus", "sus2d", "tiled_choice_norepl", "tiled_choice_repl", "axis_shuffle", "outcross_shuffle",
              "SubsetCfg", "BinaryCfg", "IntegerCfg", "RealCfg", "SubsetMateCfg", "BinaryMateCfg", "IntegerMateCfg", "RealMateCfg",
-             "HillClimber", "UnconHill"]
+             "HillClimber", "UnconHill"] + list(GA_PYMOO_OPS)
 GLOBAL_ONLY = ["spawn", "apply_jitter", "EMBV", "SortingHillClimber", "SortingAlgo"]
-FINDING_COMPS = list(GA_COMPS) + ["UnconSetGA", "UnconNSGA2SetGA", "SelProtSubset", "RandomSelProt"]
+FINDING_COMPS = list(GA_ADDON) + ["UnconSetGA", "UnconNSGA2SetGA", "SelProtSubset", "RandomSelProt"]
 
 def _rand_hist(rng, heavy=False):
     h = []
@@ -607,30 +609,27 @@ def classify(case, out, clauses):
         return ix[0] if ix else None
     steps = [int(c.split()[1]) for c in clauses if c.startswith("step ")]
     if case["kind"] == "repro":
-        i = first(GA_COMPS)
-        if i is None: return None
-        if steps and min(steps) < i: return None
-        return "C08-ga-os-entropy"
+        return None                     # after seeding everything must be reproducible (C08-ga-os-entropy is fixed)
     # isolated: exactly one kind of culprit in the program
     kinds = set()
     for c in comps:
-        if c in GA_COMPS: kinds.add("C08-ga-ignores-rng")
+        if c in GA_ADDON: kinds.add("C08-ga-ignores-rng")
         elif c in ("UnconSetGA", "UnconNSGA2SetGA"): kinds.add("C08-deap-python-random")
         elif c == "SelProtSubset": kinds.add("C08-selcfg-global-rng")
         elif c == "RandomSelProt": kinds.add("C08-helpers-global-rng")
     if len(kinds) != 1: return None
     fid = kinds.pop()
-    culprit = first(GA_COMPS + ("UnconSetGA", "UnconNSGA2SetGA", "SelProtSubset", "RandomSelProt"))
+    culprit = first(GA_ADDON + ("UnconSetGA", "UnconNSGA2SetGA", "SelProtSubset", "RandomSelProt"))
     if steps and min(steps) < culprit: return None
     if fid == "C08-deap-python-random" and any("numpy's global" in c for c in clauses): return None
     if fid in ("C08-selcfg-global-rng", "C08-helpers-global-rng") and any("python's global" in c for c in clauses): return None
-    if fid == "C08-ga-ignores-rng" and any("python's global" in c for c in clauses): return None
+    if fid == "C08-ga-ignores-rng" and (any("python's global" in c for c in clauses) or not any("numpy's global" in c for c in clauses)): return None
     return fid
 
 def nontrivial(case, out):
     if "exc" in out: return False
     if case["kind"] == "seedmodel": return True
-    if case["kind"] == "repro": return bool(out["A"]["py_moved"] or out["A"]["np_moved"] or any(s["comp"] in GA_COMPS for s in case["prog"]))
+    if case["kind"] == "repro": return bool(out["A"]["py_moved"] or out["A"]["np_moved"])
     return bool(out["ex_moved"] or out["np_moved"] or out["py_moved"])
 
 def describe(case, out):
